@@ -26,7 +26,7 @@ RULE = (
     "(or a relative 2**-50) of a range boundary, or a non-rational initialiser."
 )
 ASSUMPTIONS = ["ranges: [-2**(n-1), 2**(n-1)-1], [0, 2**n-1], +-(2 - 2**-m) * 2**emax with (m, emax) = (10, 15), (23, 127), (52, 1023)"]
-BUDGET = {"quick": 400, "thorough": 8000}
+BUDGET = {"quick": 1200, "thorough": 24000}
 
 ROOT = "ns"
 
